@@ -1,4 +1,4 @@
-"""C12 — freq_response / cascade / parallel / dft / FIR time domain.
+"""C12 — freq_response / cascade / parallel / dft / FIR time domain / histories of mutable banks.
 
 Tie (float regime): the impl computes with Python complex floats, the Lean model with exact
 Gaussian rationals.  The comparison is driven from the exact side: points w = e^{-j omega} on the
@@ -8,6 +8,18 @@ compared with the exact value under 1e-9*(1+|H|); cases whose a-priori rounding 
 2e-10 (small denominator / large coefficients) are regenerated, and a case reaching compare() with
 such a bound is not compared (counted as ill-conditioned).  The impulse responses and int-valued
 FIR runs are compared exactly.
+
+Histories (entry "hist"): CascadeFilter / ParallelFilter are python lists.  A case is a small heap of
+objects (banks first, then filters; a bank's members are references, the same object may sit in
+several banks or twice in one) and 2..8 (thorough ..12) steps: list operations on one of the banks
+(setitem, append, insert, extend, +=, *=, pop, del, slice assignment / deletion, reverse, clear,
+swap; a few with an index out of range) interleaved with at least two uses (freq_response through
+a container at frequencies shared between the uses, numpoly/denpoly evaluated at such points,
+is_lti(), calling the bank on a signal).  The impl runs the steps on the real objects and reports,
+per step, the identity of the members of the changed list resp. the values of the use; the Lean
+side runs the list semantics on the heap and answers every use for the snapshot of the bank at
+that moment (model = Bank.resp / the FIR loop, spec = Bank.spec / convolution).  EVERY step is
+compared.
 """
 import json
 import math
@@ -26,9 +38,16 @@ RULE = ("filters ZFilter/LinearFilter(b, a) and z-expressions with small int / d
         "(omega = atan2 float, optionally wrapped to [0, 2pi)) incl. 0, pi, +-pi/2, through every frequency container "
         "kind; flat cascade/parallel banks of 0..4 filters and nested bank trees (depth <= 2 quick, 3 thorough, raw "
         "list members, both constructor forms); dft of int/Fraction/complex blocks; FIR runs of impulses, int signals "
-        "and complex exponentials; an exhaustive grid of all b, a in {-1,0,1,2}^(<=2).  Non-trivial = the impl returned "
+        "and complex exponentials; an exhaustive grid of all b, a in {-1,0,1,2}^(<=2); histories of 2..8 (thorough ..12) "
+        "steps over a heap of 1..3 (nested, shared) banks and 2..5 filters: in-place list operations (13 kinds, on the "
+        "root or through an inner reference) interleaved with >= 2 uses (freq_response / numpoly,denpoly / is_lti / "
+        "call), at least one list operation between the first and the last use, frequencies shared between the uses, "
+        "every step compared.  Non-trivial = the impl returned "
         "at least one finite non-zero value, a predicted nan or a predicted exception; distinct = distinct JSON case")
 TRUSTED = [
+    "histories: hand-written Lean model of python's list operations on a heap of banks (pyIndex / pyClamp / slice "
+    "bounds; `bank *= k` binds a NEW bank because FilterList defines __mul__) — validated step by step against the "
+    "identity of the members of the real lists; uses are answered on the snapshot (Bank.resp / FIR loop)",
     "hand-written Lean model ALV/Model/C12.lean of LinearFilter.__init__/freq_response, Poly.__call__ (number argument), "
     "Cascade/ParallelFilter.freq_response, dft and the FIR instance of the generated filter loop (modelled, not verified)",
     "mapping omega <-> w = exp(-j omega) of the probe points is computed by the harness (math.atan2, float); "
@@ -37,6 +56,10 @@ TRUSTED = [
     "cmath.exp / complex arithmetic rounding is bounded a priori per case, not modelled",
 ]
 ASSUMPTIONS = [
+    "histories: numpoly/denpoly are compared (as the ratio at the probe points) only where the pair is defined and "
+    "consistent: cascades, and parallel banks of plain filters of which at most one has a denominator other than 1 "
+    "(ParallelFilter.numpoly/denpoly of equal denominators is the inconsistent pair recorded under C05); calling a "
+    "bank is compared where every leaf is FIR with int/dyadic coefficients (exact); heaps are acyclic",
     "denominator bounded away from zero at the probed frequency (a-priori rounding bound <= 2e-10), except the exact "
     "nan case: denominator exactly zero at omega = 0 (w = 1 is the only point of the circle that floats hit exactly)",
     "frequency containers: scalar, list, tuple, deque, set, frozenset, Stream (finite and endless), generator, map, range; "
@@ -44,10 +67,12 @@ ASSUMPTIONS = [
 ]
 
 MANIFEST = {
-    "text": ("Lean 4 theorems (30, no sorry/axiom) about a hand-written executable model of freq_response "
+    "text": ("Lean 4 theorems (37, no sorry/axiom) about a hand-written executable model of freq_response "
              "(LinearFilter.__init__ normalisation, Poly.__call__ paths, nan test), Cascade/Parallel banks to any "
              "nesting depth, dft and the FIR instance of the generated filter loop: transfer function in every field "
-             "and over C at w = exp(-j omega), cascade = product, parallel = sum, FIR loop = convolution, "
+             "and over C at w = exp(-j omega), cascade = product, parallel = sum — for the bank as it is NOW after any "
+             "history of in-place list operations and uses on a heap of nested / shared banks (uses are pure and "
+             "depend only on the snapshot) —, FIR loop = convolution, "
              "DFT(impulse response) = freq_response, steady state / transient of complex exponentials, dft sum / "
              "linearity / DC mean, and the cast Q[i] -> C of the executable evaluator; tied to /repo by a differential "
              "correspondence in the float regime (exact Gaussian-rational value vs impl float, a-priori rounding bound)"),
@@ -60,7 +85,7 @@ MANIFEST = {
 TOL = 1e-9
 BOUND = 2e-10
 N_HIST_QUICK = 2000
-N_HIST_THOROUGH = 30000
+N_HIST_THOROUGH = 16000
 
 
 # ----------------------------------------------------------------------------
@@ -624,9 +649,26 @@ def tree_all(tree, pred):
     return pred(tree)
 
 
+def call_bits(tree):
+    """(bits an output sample may need per input bit, some leaf works in floats) of an all-FIR bank"""
+    if not is_bank(tree):
+        fl = tree.get("ctype", "int") == "dyadic"
+        n1 = sum(abs(dec(x)) for x in tree["b"])
+        return (math.log2(max(1.0, float(n1))) + (3 if fl else 0), fl)
+    rs = [call_bits(m) for m in tree[bank_key(tree)]]
+    fl = any(r[1] for r in rs)
+    if "cascade" in tree:
+        return (sum(r[0] for r in rs), fl)
+    return (max([r[0] for r in rs] + [0]) + math.log2(max(1, len(rs))), fl)
+
+
 def fir_exact(tree):
-    """every leaf is FIR with exactly represented coefficients: calling the bank is modelled, exactly"""
-    return tree_all(tree, lambda f: f["a"] == [1] and f.get("ctype", "int") in ("int", "dyadic"))
+    """every leaf is FIR with exactly represented coefficients and the run stays exact (python ints,
+    or floats that never need more than 53 bits): calling the bank is modelled, exactly"""
+    if not tree_all(tree, lambda f: f["a"] == [1] and f.get("ctype", "int") in ("int", "dyadic")):
+        return False
+    bits, fl = call_bits(tree)
+    return (not fl) or bits + 5 <= 52
 
 
 def poly_safe(tree):
@@ -643,12 +685,62 @@ def poly_safe(tree):
             sum(1 for m in ms if m["a"] != [1]) <= 1)
 
 
+def poly_cond(tree, w):
+    """exact values and 1-norm bounds of the EXPANDED numerator / denominator polynomials of a
+    poly_safe bank at w (|w| = 1): (N(w), D(w), bound on sum|num coeffs|, bound on sum|den coeffs|, leaves).
+    numpoly / denpoly are products / sums of products computed by the impl in floats: every
+    coefficient carries a rounding error relative to the 1-norm bound, not to the value."""
+    if not is_bank(tree):
+        b, a = filt_terms(tree)
+        return (gterms(b, w), gterms(a, w), sum(gabs(c) for _, c in b), sum(gabs(c) for _, c in a), 1)
+    rs = [poly_cond(m, w) for m in tree[bank_key(tree)]]
+    N, D, Nn, Dn, m = (F(1), F(0)), (F(1), F(0)), 1.0, 1.0, 0
+    if "cascade" in tree:
+        for r in rs:
+            N, D, Nn, Dn, m = gmul(N, r[0]), gmul(D, r[1]), Nn * r[2], Dn * r[3], m + r[4]
+        return (N, D, Nn, Dn, m)
+    N, Nn = (F(0), F(0)), 0.0
+    for i, r in enumerate(rs):
+        t, tn = r[0], r[2]
+        for j, r2 in enumerate(rs):
+            if j != i:
+                t, tn = gmul(t, r2[1]), tn * r2[3]
+        N, Nn = gadd(N, t), Nn + tn
+        D, Dn, m = gmul(D, r[1]), Dn * r[3], m + r[4]
+    return (N, D, Nn, Dn, m)
+
+
+def polys_ok(tree, pts):
+    """numpoly(w)/denpoly(w) is compared at these points: defined pair, a value (no pole, no exception)
+    at every point and the float error of the expanded coefficients a-priori below BOUND*(1+|H|)"""
+    if not poly_safe(tree):
+        return False
+    for w in pts:
+        r = tree_eval(tree, w)
+        if r[0] == "none":
+            continue                      # TypeError of an empty bank: nothing numeric
+        if r[0] != "val":
+            return False
+        N, D, Nn, Dn, m = poly_cond(tree, w)
+        Dm = gabs(D)
+        if Dm == 0:
+            return False
+        g = 1e-15 * 8 * (m + 1)
+        H = gabs(r[1])
+        if g * Dn >= 0.01 * Dm or (g * Nn + H * g * Dn) / Dm > BOUND * (1 + H):
+            return False
+    return True
+
+
 def hist_step_ok(o, snap):
     """is the step compared numerically?  (well conditioned snapshot at the probed points)"""
     if snap is None:
         return False
-    if o["op"] in ("freq", "polys"):
+    if o["op"] == "freq":
         return tree_ok(snap, [gdec_pt(p) for p in o["pts"]])
+    if o["op"] == "polys":
+        pts = [gdec_pt(p) for p in o["pts"]]
+        return bool(pts) and tree_ok(snap, pts) and polys_ok(snap, pts)
     return True
 
 
@@ -748,8 +840,6 @@ def hist_use_op(rng, t, snap, pool, big, earlier=()):
         kind = rng.choice(earlier)          # the same kind of use before and after a change
     if kind == "call" and not (snap is not None and fir_exact(snap)):
         kind = "freq"
-    if kind == "polys" and not (snap is not None and poly_safe(snap)):
-        kind = "freq"
     o = {"op": kind, "t": t}
     if kind == "freq":
         o["kind"] = rng.choice(HIST_KINDS)
@@ -760,6 +850,9 @@ def hist_use_op(rng, t, snap, pool, big, earlier=()):
             pts = [p for p in pool if rng.random() < 0.7] or [rng.choice(pool)]
             if rng.random() < 0.1:
                 pts = pts + [rand_point(rng, big)]
+        if kind == "polys" and not (snap is not None and polys_ok(snap, pts)):
+            o["op"] = kind = "freq"
+            o["kind"] = "list"
         o["pts"] = [genc(w) for w in pts]
     if kind == "call":
         if rng.random() < 0.5:
@@ -1043,8 +1136,8 @@ def impl_hist(c):
                 for p in o["pts"]:
                     w = gdec_pt(p)
                     nv, _ = poly_at(num, w)
-                    dv, ds = poly_at(den, w)
-                    if gabs(dv) <= 1e-12 * (1 + ds):
+                    dv, _ = poly_at(den, w)
+                    if dv == (0, 0):
                         vals.append("nan")
                     else:
                         vals.append(genc(gdiv(nv, dv)))
@@ -1252,8 +1345,6 @@ def hist_problems(c, io, drv):
         if not hist_step_ok(o, snap):
             continue
         if k in ("freq", "polys"):
-            if k == "polys" and not poly_safe(snap):
-                continue
             pc = {"entry": where, "kind": o.get("kind", "list")}
             for tag in ("model", "spec"):
                 sub = []
@@ -1353,7 +1444,7 @@ def tally_hist(eng, c, io):
         eng.count("hist_target", ("use:" if k in USE_OPS else "list-op:") + tgt)
         if k in USE_OPS:
             snap = snaps[i]
-            if not hist_step_ok(o, snap) or (k == "polys" and not poly_safe(snap)):
+            if not hist_step_ok(o, snap):
                 eng.count("hist_use_not_compared", k)
             if k == "freq":
                 eng.count("hist_container", o["kind"])
